@@ -698,6 +698,9 @@ class Interp:
         if isinstance(e.op, ast.Invert):
             if isinstance(v, int):
                 return ~v
+            h = getattr(v, "pyvc_unary", None)
+            if h is not None:
+                return h(self, "~")
             return self.call_method_model(v, "__invert__", [], {})
         raise OutOfReach("unary op")
 
